@@ -232,6 +232,18 @@ func (in *Interp) dynAxioms() []*Term {
 		}
 		out = append(out, tt.Eq(v.res, tt.Or(alts...)))
 	}
+	// unique signatures: two honest signatures coincide only for the same key and message (a collision
+	// would be a forgery; Ed25519 signatures are deterministic functions of key and message)
+	for i := 0; i < len(in.signs); i++ {
+		for j := i + 1; j < len(in.signs); j++ {
+			a, b := in.signs[i], in.signs[j]
+			same := tt.False
+			if len(a.msg) == len(b.msg) {
+				same = tt.And(in.bytesEq(a.seed, b.seed), in.bytesEq(a.msg, b.msg))
+			}
+			out = append(out, tt.Or(tt.Not(in.bytesEq(a.sig, b.sig)), same))
+		}
+	}
 	out = append(out, in.aeadAxioms()...)
 	return out
 }
